@@ -1,19 +1,21 @@
 #!/usr/bin/env python3
 """confirm_seeded.py <property-id> <agent-worktree> [name]
 
-Independent confirmation of a seeded change produced by a sub-agent, then storage under /verif/seeded/<name>/:
-  1. the patch applies to /repo (git apply), the library builds and the repository's own test suite still passes;
+Independent confirmation of a seeded change produced by a sub-agent, then storage under /verif/seeded/<name>/.  Everything happens in a
+fresh scratch worktree of /repo's HEAD (/tmp/vf_confirm_<name>, built with the baseline cmake configuration, removed afterwards), so
+several confirmations can run side by side and /repo is never touched:
+  1. the patch applies to the worktree (git apply), the library builds and the repository's own test suite still passes;
   2. the demonstration fails with the change;
   3. every quick check of /verif is run against the changed /repo (evidence redirected) - which ones report it is recorded;
   4. the change is undone (git checkout), the library is rebuilt, the demonstration passes and the suite passes.
-/repo is left clean.  Nothing of this is ever committed to /repo."""
+Nothing of this is ever committed to /repo."""
 import json, os, shutil, subprocess, sys, tempfile, time
 
 HERE = os.path.dirname(os.path.abspath(__file__))
 VERIF = os.path.dirname(HERE)
 sys.path.insert(0, HERE)
 import registry
-REPO = "/repo"
+REPO = None  # scratch worktree, set in main()
 
 
 def sh(cmd, **kw):
@@ -21,10 +23,10 @@ def sh(cmd, **kw):
 
 
 def build_and_test():
-    r = sh("cmake --build /repo/_build 2>&1 | tail -3")
+    r = sh("cmake --build %s/_build 2>&1 | tail -3" % REPO)
     if "FAILED" in r.stdout or "error" in r.stdout.lower():
         return False, "build failed: " + r.stdout[-400:]
-    t = sh("/repo/_build/test/spqlios-test 2>&1 | tail -3")
+    t = sh("%s/_build/test/spqlios-test 2>&1 | tail -3" % REPO)
     ok = "[  PASSED  ] 238 tests." in t.stdout
     return ok, t.stdout.strip().splitlines()[-1] if t.stdout.strip() else "no output"
 
@@ -65,11 +67,18 @@ rm -rf "$OUT"
 exit $rc
 """ % ("g++" if cxx else "gcc", "" if cxx else "-std=gnu11", demo))
     log = {}
-    st = sh("git -C /repo status --porcelain --untracked-files=no").stdout.strip()
-    if st:
-        sys.exit("/repo is not clean: " + st)
-    a = sh("git -C /repo apply %s/patch.diff" % dst)
+    global REPO
+    REPO = "/tmp/vf_confirm_" + name
+    sh("git -C /repo worktree remove --force " + REPO)
+    a = sh("git -C /repo worktree add --detach %s HEAD" % REPO)
     if a.returncode:
+        sys.exit("cannot create scratch worktree: " + a.stderr)
+    c = sh("cmake -G Ninja -S %s -B %s/_build -DCMAKE_BUILD_TYPE=RelWithDebInfo -DCMAKE_C_FLAGS=-Wno-error -DCMAKE_CXX_FLAGS=-Wno-error" % (REPO, REPO))
+    if c.returncode:
+        sys.exit("cmake configure failed: " + c.stderr[-400:])
+    a = sh("git -C %s apply %s/patch.diff" % (REPO, dst))
+    if a.returncode:
+        sh("git -C /repo worktree remove --force " + REPO)
         sys.exit("patch does not apply: " + a.stderr)
     try:
         ok, msg = build_and_test()
@@ -79,7 +88,7 @@ exit $rc
         log["demo_with_change"] = "exit %d: %s" % (rc, tail)
         log["demo_fails_with_change"] = rc != 0
         out = tempfile.mkdtemp(prefix="vf_seed_")
-        env = dict(os.environ, VERIF_OUT_DIR=out)
+        env = dict(os.environ, VERIF_OUT_DIR=out, VERIF_REPO=REPO)
         caught, details = [], {}
         for c in sorted(registry.CHECKS):
             r = subprocess.run([sys.executable, os.path.join(HERE, "run_check.py"), c, "quick"], env=env, capture_output=True, text=True)
@@ -96,7 +105,7 @@ exit $rc
         log["caught_by_quick_checks"] = caught
         log["first_violation"] = details
     finally:
-        sh("git -C /repo checkout -- .")
+        sh("git -C %s checkout -- ." % REPO)
     ok2, msg2 = build_and_test()
     log["tests_without_change"] = msg2
     rc2, tail2 = run_demo(dst)
@@ -108,9 +117,9 @@ exit $rc
         "needs": agent_meta.get("needs"),
         "files_changed": agent_meta.get("files_changed"),
         "origin": "written by an independent sub-agent that saw only the property text and a scratch worktree",
-        "what_i_ran": ["git -C /repo apply seeded/%s/patch.diff" % name, "cmake --build /repo/_build && /repo/_build/test/spqlios-test",
-                       "sh seeded/%s/run_demo.sh /repo" % name, "python3 tools/run_check.py <every id> quick (VERIF_OUT_DIR redirected)",
-                       "git -C /repo checkout -- . ; rebuild ; demo again"],
+        "what_i_ran": ["git worktree add <scratch> HEAD; git -C <scratch> apply seeded/%s/patch.diff" % name, "cmake --build <scratch>/_build && <scratch>/_build/test/spqlios-test",
+                       "sh seeded/%s/run_demo.sh <scratch>" % name, "VERIF_REPO=<scratch> python3 tools/run_check.py <every id> quick (VERIF_OUT_DIR redirected)",
+                       "git -C <scratch> checkout -- . ; rebuild ; demo again ; git worktree remove"],
         "confirmed": log,
         "kept": bool(log.get("tests_pass_with_change") and log.get("demo_fails_with_change") and log.get("demo_passes_without_change")),
         "date": time.strftime("%Y-%m-%d"),
@@ -118,6 +127,7 @@ exit $rc
     json.dump(meta, open(os.path.join(dst, "meta.json"), "w"), indent=1)
     print(json.dumps({k: meta["confirmed"][k] for k in ("tests_pass_with_change", "demo_fails_with_change", "demo_passes_without_change", "caught_by_quick_checks")}))
     print("kept:", meta["kept"])
+    sh("git -C /repo worktree remove --force " + REPO)
 
 
 if __name__ == "__main__":
